@@ -19,12 +19,14 @@ import (
 	"context"
 	"errors"
 	"fmt"
+	"io"
 	"strconv"
 	"sync"
 	"sync/atomic"
 	"time"
 
 	corev1 "k8s.io/api/core/v1"
+	apierrors "k8s.io/apimachinery/pkg/api/errors"
 	metav1 "k8s.io/apimachinery/pkg/apis/meta/v1"
 	"k8s.io/apimachinery/pkg/runtime"
 	"k8s.io/apimachinery/pkg/watch"
@@ -42,6 +44,37 @@ type logEntry struct {
 }
 
 var errInjected = errors.New("injected list failure")
+
+// listErrFlavours: the error values a failing List call may return.  Every
+// one of them is "a list call that fails": client-go surfaces request-scoped
+// context errors, transport errors and API status errors through the same
+// return value.  None of them means that the controller's own context was
+// cancelled (the harness never cancels it while injecting one).
+type tempNetErr struct{}
+
+func (tempNetErr) Error() string   { return "dial tcp 10.0.0.1:443: i/o timeout (injected)" }
+func (tempNetErr) Timeout() bool   { return true }
+func (tempNetErr) Temporary() bool { return true }
+
+type listErrFlavour struct {
+	name string
+	err  error
+}
+
+var listErrFlavours = []listErrFlavour{
+	{"plain", errInjected},
+	{"context.Canceled", context.Canceled},
+	{"context.DeadlineExceeded", context.DeadlineExceeded},
+	{"wrapped context.Canceled", fmt.Errorf("Get \"https://10.0.0.1/api/v1/pods\": %w", context.Canceled)},
+	{"io.EOF", io.EOF},
+	{"io.ErrUnexpectedEOF", io.ErrUnexpectedEOF},
+	{"temporary net timeout", tempNetErr{}},
+	{"status 504 timeout", apierrors.NewTimeoutError("injected", 1)},
+	{"status 410 expired", apierrors.NewResourceExpired("too old resource version (injected)")},
+	{"status 429 too many requests", apierrors.NewTooManyRequests("injected", 1)},
+	{"status 500 internal", apierrors.NewInternalError(errors.New("injected"))},
+	{"status 401 unauthorized", apierrors.NewUnauthorized("injected")},
+}
 var errWatchInjected = errors.New("injected watch connect failure")
 
 type listFault string
@@ -216,6 +249,7 @@ type fakeAPI struct {
 	gated            bool
 	gatech           chan *listReq
 	listFaults       map[int]listFault
+	listErr          listErrFlavour // what a lfError fault returns
 	listLatency      func(k int) time.Duration
 	beforeListReturn func(k int) // called (without the lock) just before a successful List returns
 	nlists           int
@@ -238,6 +272,7 @@ func newFakeAPI() *fakeAPI {
 		objs:       map[string]kobj{},
 		gatech:     make(chan *listReq),
 		listFaults: map[int]listFault{},
+		listErr:    listErrFlavours[0],
 		wcallch:    make(chan int, 4096),
 		releasech:  make(chan struct{}, 4096),
 		mkList:     rawList,
@@ -271,10 +306,10 @@ func (a *fakeAPI) render(s snapshot) runtime.Object {
 	return a.mkList(strconv.Itoa(s.rv), s.items)
 }
 
-func faultResult(f listFault) (runtime.Object, error) {
+func (a *fakeAPI) faultResult(f listFault) (runtime.Object, error) {
 	switch f {
 	case lfError:
-		return nil, errInjected
+		return nil, a.listErr.err
 	case lfNilNil:
 		return nil, nil
 	case lfNonList:
@@ -347,7 +382,7 @@ func (a *fakeAPI) List(ctx context.Context, _ metav1.ListOptions) (runtime.Objec
 	}
 	if fault != lfNone {
 		finish(0, fault, false)
-		return faultResult(fault)
+		return a.faultResult(fault)
 	}
 	if hook := a.beforeListReturn; hook != nil {
 		hook(k)
